@@ -206,6 +206,26 @@ open Factory in
 example : limRunSteps.all (fun s => s.op.keepsDisc) = true ∧ ((init limRunCase).runSteps limRunSteps).queue.map (·.id) = [4] := by
   decide +kernel
 
+/-! ## `DiscardSettings::Dynamic` -/
+
+open Factory in
+/-- (Dynamic settings) At every `DoPings` a factory with `DiscardSettings::Dynamic { limit, mode, updater }` replaces
+`limit` by the controller's answer and does nothing else to its bookkeeping (`send_pings`; nothing is shed at that
+moment, the next `maybe_enqueue` sees the new limit). For the routers that queue at the factory the engine replays
+that step as the model's `UpdateSettings(Static{limit', mode})`; this theorem is the model half of that reduction:
+the message changes the limit and nothing else — queue, environment (no discard, no reply), pool size, router state
+are untouched, and every worker keeps the setting `None` it has under these routers. The implementation half (the
+real `DoPings` with a scripted controller does what this message does) is the differential replay of the `ping` op. -/
+theorem dynamic_limit_update (w : W) (nl : Nat) (m : Mode) (hq : isFactoryQueueing w.cfg.router = true) :
+    (w.updateSettings (some (some (nl, m))) none).disc = some (nl, m) ∧
+    (w.updateSettings (some (some (nl, m))) none).queue = w.queue ∧
+    (w.updateSettings (some (some (nl, m))) none).env = w.env ∧
+    (w.updateSettings (some (some (nl, m))) none).poolSize = w.poolSize ∧
+    (w.updateSettings (some (some (nl, m))) none).avail = w.avail ∧
+    (w.updateSettings (some (some (nl, m))) none).pool = w.pool.map (fun p => { p with disc := none }) := by
+  unfold W.updateSettings W.workerDiscard
+  simp [hq]
+
 /-! ## Discard limit on the worker queues (`enqueue_job`, worker-queueing routers) -/
 
 open Factory in
@@ -588,6 +608,7 @@ end C15
 #print axioms C15.queue_limit_newest_run
 #print axioms C15.disc_settings_constant_run
 #print axioms C15.worker_queue_limit_run_partial
+#print axioms C15.dynamic_limit_update
 #print axioms C15.limit_worker_queue
 #print axioms C15.limit_worker_oldest
 #print axioms C15.rate_limited_dispatch
